@@ -26,7 +26,9 @@ Implementation-side oracles (no model; the theorems' conclusions evaluated on th
   O4  converged controller_ParaDiag_nonMPI runs (scalar/vector Dahlquist, heat, advection; IMEX;
       averaged Jacobian on/off; 1..5 RADAU-RIGHT nodes) vs sequential collocation time stepping,
       every step; iteration count vs the alpha/(1-alpha) contraction bound for the non-IMEX runs.
-Tend is always a multiple of the block length (the controller deliberately solves past Tend otherwise).
+Runs start at t0 = k*dt with k zero, negative, small, large, odd (dt a power of two: all step times are exact floats) and end at
+Tend = t0 + blocks * block length (the controller deliberately solves past Tend otherwise); the number of steps taken and every
+step's start/end time are compared with t0 + k*dt, and the forced heat equation makes the times visible in the values.
 """
 import contextlib
 import logging
@@ -505,6 +507,14 @@ def random_problem(ck, kind):
     raise ValueError(kind)
 
 
+def draw_t0(ck, dt):
+    """Start time: an integer multiple of the (power-of-two) step size, so that every step time t0 + k dt and
+    Tend = t0 + blocks * L * dt are exact floats and the expected number of steps is unambiguous; zero, negative,
+    small, large and odd multiples."""
+    k = ck.rng.choice([0, 0, -3, 7, -41, 129, 1025, -4099, 65537, ck.rng.randrange(-300, 300)])
+    return k * dt
+
+
 def pp_repr(pp):
     return {k: ([str(x) for x in v] if isinstance(v, np.ndarray) else v) for k, v in pp.items()}
 
@@ -693,17 +703,18 @@ def check_set_G_inv(ck, I, mp):
             lvl0 = c.MS[0].levels[0]
             u0 = lvl0.prob.u_exact(0.0)
             u0c = np.asarray(u0, dtype=complex).flatten()
+            t0 = draw_t0(ck, dt)
             with warnings.catch_warnings():
                 warnings.simplefilter('ignore')
                 with time_limit(30):
-                    uend, stats = c.run(u0=u0, t0=0.0, Tend=L * dt)
+                    uend, stats = c.run(u0=u0, t0=t0, Tend=t0 + L * dt)
             niter = max(me[1] for me in get_sorted(stats, type='niter'))
             Q = np.asarray(lvl0.sweep.coll.Qmat[1:, 1:], dtype=float)
-            ref = sequential_oracle(Q, lvl0.sweep.coll.nodes, A, forcing, dt, u0c, 0.0, L)
+            ref = sequential_oracle(Q, lvl0.sweep.coll.nodes, A, forcing, dt, u0c, t0, L)
             scale = max(1.0, max(np.abs(U).max() for U in ref))
             e = max(np.abs(np.asarray(c.MS[l].levels[0].u[m + 1]).flatten() - ref[l][m]).max() for l in range(L) for m in range(M)) / scale
             replay = {'problem': kind, 'problem_params': pp_repr(pp), 'dt': dt, 'n_steps': L, 'num_nodes': M,
-                      'alpha_at_construction': alpha0, 'alpha_after_retuning (params.alpha + set_G_inv on every step)': alpha1,
+                      't0': t0, 'alpha_at_construction': alpha0, 'alpha_after_retuning (params.alpha + set_G_inv on every step)': alpha1,
                       'niter': int(niter), 'err': float(e)}
             ck.case(key=('retune', kind, L, M, round(math.log10(alpha0), 3), round(math.log10(alpha1), 3)), nontrivial=True,
                     sample={'retuned_controller': {k: replay[k] for k in ('problem', 'n_steps', 'num_nodes', 'niter', 'err')}})
@@ -756,15 +767,16 @@ def check_increment_system(ck, I):
             u0 = np.array([complex(ck.rng.uniform(-1, 1), ck.rng.uniform(-1, 1)) for _ in range(n)])
             uinit = P.u_init
             uinit[:] = u0.reshape(uinit.shape)
+            t0 = draw_t0(ck, dt)
             with time_limit(30):
-                c.run(u0=uinit, t0=0.0, Tend=L * dt)
+                c.run(u0=uinit, t0=t0, Tend=t0 + L * dt)
             Q = np.asarray(lvl0.sweep.coll.Qmat[1:, 1:], dtype=float)
             nodes = lvl0.sweep.coll.nodes
             inc = np.array([[np.asarray(c.MS[l].levels[0].u[m + 1]).flatten() - u0 for m in range(M)] for l in range(L)])
             # residual of the spread state: r_{l,m} = dt sum_j Q_mj (A u0 + g(t_l + dt c_j))
             r = np.zeros((L, M, n), dtype=complex)
             for l in range(L):
-                F_ = np.array([A @ u0 + (forcing(l * dt + dt * nodes[j]) if forcing is not None else 0) for j in range(M)])
+                F_ = np.array([A @ u0 + (forcing(t0 + l * dt + dt * nodes[j]) if forcing is not None else 0) for j in range(M)])
                 r[l] = dt * (Q @ F_)
             E = np.zeros((L, L))
             for j in range(1, L):
@@ -778,14 +790,14 @@ def check_increment_system(ck, I):
             ratio = defect / (EPS * L / alpha * scale)
             worst = max(worst, ratio)
             replay = {'problem': kind, 'problem_params': pp_repr(pp), 'dt': dt, 'n_steps': L, 'num_nodes': M, 'alpha': alpha,
-                      'average_jacobian': avg, 'u0': [str(v) for v in u0], 'defect': float(defect), 'scale': float(scale)}
+                      'average_jacobian': avg, 't0': t0, 'u0': [str(v) for v in u0], 'defect': float(defect), 'scale': float(scale)}
             ck.case(key=('incr', kind, L, M, round(math.log10(alpha), 3), avg), nontrivial=L > 1,
                     sample={'increment_system': {k: replay[k] for k in ('problem', 'n_steps', 'num_nodes', 'alpha', 'defect')}})
             ck.traces += 1
             if kind not in ('dahl_imex', 'heatf'):
                 # C15_paradiag_error_equation on the implementation:
                 # K_alpha (u1 - ustar) = -alpha H (u_spread - ustar)_{L-1} in step 0, zero in the other steps
-                ref = np.array(sequential_oracle(Q, nodes, A, forcing, dt, u0, 0.0, L))
+                ref = np.array(sequential_oracle(Q, nodes, A, forcing, dt, u0, t0, L))
                 e1 = (inc + u0[None, None, :]) - ref
                 rhs_e = np.zeros((L, M, n), dtype=complex)
                 rhs_e[0, :, :] = -alpha * (u0 - ref[L - 1, M - 1])[None, :]
@@ -840,21 +852,34 @@ def check_converged_runs(ck, I):
             P = lvl0.prob
             u0 = P.u_exact(0.0)
             u0c = np.asarray(u0, dtype=complex).flatten()
-            Tend = L * dt * nblocks     # multiple of the block length
+            t0 = draw_t0(ck, dt)
+            Tend = t0 + L * dt * nblocks     # t0 + multiple of the block length, exact in floating point
             with warnings.catch_warnings():
                 warnings.simplefilter('ignore')
                 with time_limit(30):
-                    uend, stats = c.run(u0=u0, t0=0.0, Tend=Tend)
+                    uend, stats = c.run(u0=u0, t0=t0, Tend=Tend)
             us = get_sorted(stats, type='u', sortby='time')
             niter = max(me[1] for me in get_sorted(stats, type='niter'))
             Q = np.asarray(lvl0.sweep.coll.Qmat[1:, 1:], dtype=float)
-            ref = sequential_oracle(Q, lvl0.sweep.coll.nodes, A, forcing, dt, u0c, 0.0, L * nblocks)
+            ref = sequential_oracle(Q, lvl0.sweep.coll.nodes, A, forcing, dt, u0c, t0, L * nblocks)
             replay = {'problem': kind, 'problem_params': pp_repr(pp), 'dt': dt, 'n_steps': L, 'num_nodes': M, 'alpha': alpha,
-                      'average_jacobian': avg, 'Tend': Tend, 'restol': RESTOL, 'niter': int(niter)}
-            match = {'kind': 'converged-run', 'problem': kind, 'imex': kind in ('dahl_imex', 'heatf')}
+                      'average_jacobian': avg, 't0': t0, 'Tend': Tend, 'blocks': nblocks, 'restol': RESTOL, 'niter': int(niter)}
+            match = {'kind': 'converged-run', 'problem': kind, 'imex': kind in ('dahl_imex', 'heatf'), 't0_zero': t0 == 0.0}
             ck.traces += 1
             if len(us) != L * nblocks:
-                ck.violation('ParaDiag run logged %d steps, expected %d' % (len(us), L * nblocks), replay, match=dict(match, what='steps'))
+                ck.violation('ParaDiag run from t0=%r to Tend=%r with dt=%r took %d steps, sequential time stepping takes %d'
+                             % (t0, Tend, dt, len(us), L * nblocks), dict(replay, step_end_times=[float(u[0]) for u in us][:80]),
+                             match=dict(match, what='steps'))
+                continue
+            # every step must cover [t0 + k dt, t0 + (k+1) dt] (all exactly representable)
+            times = [float(u[0]) for u in us]
+            expected = [t0 + (k + 1) * dt for k in range(L * nblocks)]
+            last_block_starts = [float(c.MS[l].levels[0].time) for l in range(L)]
+            expected_starts = [t0 + ((nblocks - 1) * L + l) * dt for l in range(L)]
+            if times != expected or last_block_starts != expected_starts:
+                ck.violation('ParaDiag steps are not at the times t0 + k dt', dict(replay, step_end_times=times[:80], expected=expected[:80],
+                                                                                 last_block_start_times=last_block_starts, expected_starts=expected_starts),
+                             match=dict(match, what='times'))
                 continue
             scale = max(1.0, max(np.abs(U).max() for U in ref))
             e_steps = max(np.abs(np.asarray(u[1]).flatten() - U[-1]).max() for u, U in zip(us, ref)) / scale
@@ -867,8 +892,8 @@ def check_converged_runs(ck, I):
                     e_nodes = max(e_nodes, np.abs(np.asarray(c.MS[l].levels[0].u[m + 1]).flatten() - U[m]).max() / scale)
             e = max(e_steps, e_end, e_nodes)
             worst = max(worst, e)
-            ck.case(key=('run', kind, L, M, round(math.log10(alpha), 3), avg, nblocks), nontrivial=True,
-                    sample={'converged_run': dict({k: replay[k] for k in ('problem', 'n_steps', 'num_nodes', 'alpha', 'niter')}, err=float(e))})
+            ck.case(key=('run', kind, L, M, round(math.log10(alpha), 3), avg, nblocks, t0), nontrivial=True,
+                    sample={'converged_run': dict({k: replay[k] for k in ('problem', 'n_steps', 'num_nodes', 'alpha', 't0', 'blocks', 'niter')}, err=float(e))})
             if niter >= maxiter:
                 ck.violation('ParaDiag did not converge within %d iterations on a linear dissipative problem' % maxiter, replay,
                              match=dict(match, what='no-convergence'))
